@@ -48,7 +48,7 @@ REQUIRED = ["constructions", "points_multiset_checked", "mst_length_checked", "l
             "limit_root_not_exempt", "root_wants_more_than_k", "parents_replayed", "balanced_replayed",
             "float32_clouds", "integer_clouds", "clouds_with_coincident_points", "far_clouds", "soma_given", "soma_first_point", "class_PointsToMST",
             "class_PointsToCuntzMST", "tap_call", "transform_instances_reused",
-            "rejected_calls_before_construction"]
+            "rejected_calls_before_construction", "names_given_at_call_time"]
 FLOOR = {"quick": 650, "thorough": 52000}
 SHARDS = {"quick": 8, "thorough": 16}
 TIMEOUT = {"quick": 300, "thorough": 3000}
@@ -209,7 +209,15 @@ def execute(ctx, case):
                     ctx.count("lenient_argument_forms_accepted")
                 except Exception:
                     ctx.count("rejected_calls_before_construction")
-            t = tf(pts, soma) if soma is not None else tf(pts)
+            if case["seed"] % 5 == 2:
+                # the column names given at call time (the older, still accepted spelling)
+                from swcgeom.core.swc import SWCNames
+
+                t = tf(pts, soma, names=SWCNames()) if soma is not None else \
+                    tf(pts, names=SWCNames())
+                ctx.count("names_given_at_call_time")
+            else:
+                t = tf(pts, soma) if soma is not None else tf(pts)
     except Exception as e:
         return ctx.violation("construction-raised", f"{cls}(bf={bf}, furcations={k}, exclude_soma="
                                                     f"{ex}) raised {type(e).__name__}: "
